@@ -251,13 +251,20 @@ func Verif_C09_DebScripts() {
 // Verif_C03_DebChangelogDigests: with a generated changelog (its text is an
 // opaque model value) md5sums still has one correct line per regular member,
 // the changelog included, also for the files packed after it.
-func Verif_C03_DebChangelogDigests() {
+func Verif_C03_DebChangelogDigests() { verifDebChangelog() }
+
+// Verif_C04_DebChangelogStructure: the same package seen as an archive (member order and uniqueness with the generated changelog).
+func Verif_C04_DebChangelogStructure() { verifDebChangelog() }
+
+func verifDebChangelog() {
 	sc := scen.Payload(scen.Options{SymContent: true, Second: 3})
 	mt := time.Unix(1500000000, 0).UTC()
 	sc.Info.Changelog = models.AddFile("/src/changelog.yaml", []byte("- semver: 1.0.0\n"), 0o644, mt)
 	// one more regular file that sorts after /usr/share/doc/pkg/changelog.Debian.gz
-	late := v.NondetBytes("late.content", 2)
-	sc.Info.Contents = append(sc.Info.Contents, &files.Content{Source: models.AddFile("/src/late", late, 0o644, mt), Destination: "/usr/share/doc/pkg/copyright"})
+	if v.NondetBool("another.file.in.the.doc.directory") { // otherwise the changelog alone implies its parent directories
+		late := v.NondetBytes("late.content", 2)
+		sc.Info.Contents = append(sc.Info.Contents, &files.Content{Source: models.AddFile("/src/late", late, 0o644, mt), Destination: "/usr/share/doc/pkg/copyright"})
+	}
 	d, ok := verifBuild(sc)
 	v.Reach("C03.deb.changelog.ran")
 	if !ok {
@@ -275,6 +282,35 @@ func Verif_C03_DebChangelogDigests() {
 		}
 	}
 	v.Assert(sawChangelog, "deb-changelog-is-shipped")
+	// C04 for the generated member too: unique names, every parent directory earlier in the archive
+	okOrder := true
+	for i, e := range d.data {
+		n := e.Name
+		if len(n) > 0 && n[len(n)-1] == '/' {
+			n = n[:len(n)-1]
+		}
+		for j := 0; j < i; j++ {
+			if d.data[j].Name == e.Name {
+				okOrder = false
+			}
+		}
+		for k := len(n) - 1; k > 1; k-- {
+			if n[k] != '/' {
+				continue
+			}
+			parent := n[:k+1]
+			found := false
+			for j := 0; j < i; j++ {
+				if d.data[j].Name == parent {
+					found = true
+				}
+			}
+			if !found {
+				okOrder = false
+			}
+		}
+	}
+	v.Assert(okOrder, "deb-changelog-member-has-its-parents-before-it")
 	m := models.Find(d.control, "./md5sums")
 	v.Assert(m != nil && string(m.Data) == want, "deb-md5sums-match-shipped-bytes-with-changelog")
 }
